@@ -223,7 +223,7 @@ fn c13_q_coarsen_covers() {
 #[cfg_attr(kani, kani::proof)]
 #[cfg_attr(kani, kani::unwind(18))]
 #[cfg_attr(not(kani), test)]
-fn c13_t_promotion_full_table_3sym() {
+fn c13_x_promotion_full_table_3sym() {
     let mut t = ChangedAttrs::new();
     let mut next: u64 = 1;
     let mut i: u16 = 0;
@@ -300,7 +300,7 @@ fn c13_q_promotion_global_fallback() {
 #[cfg_attr(kani, kani::proof)]
 #[cfg_attr(kani, kani::unwind(18))]
 #[cfg_attr(not(kani), test)]
-fn c13_t_promotion_global_fallback_any_change() {
+fn c13_x_promotion_global_fallback_any_change() {
     promotion_global_fallback(any_u16(), any_u32(), any_u32());
 }
 
